@@ -1,16 +1,74 @@
-# C19 - a file transfer reported successful delivered exactly the bytes that were sent (in-band bytestreams)
+# C19 - a file transfer reported successful delivered exactly the bytes that were sent (in-band bytestreams, XEP-0047)
+# REAL code: src/client/QXmppTransferManager.cpp (included by the harness), src/base/QXmppIbbIq.cpp, QXmppIq.cpp, QXmppStanza.cpp (what goes on the wire)
 TUS = ['src/base/QXmppIbbIq.cpp', 'src/base/QXmppIq.cpp', 'src/base/QXmppStanza.cpp', 'src/base/QXmppUtils.cpp', 'src/base/QXmppNonza.cpp',
        'src/base/QXmppByteStreamIq.cpp', 'src/client/QXmppClientExtension.cpp']
 MODELS = ['qt_core.c', 'qt_list.c', 'qt_dom.c', 'c19_models.c']
+KF_WRAP = 'ibb_sequence_wrap'     # DESIGN D13: `int ibbSequence` compared with the 16-bit seq of XEP-0047
+B_JOB = ('job pre-state: direction, method (all 4 values), state (all 4 values), peer JID 0..2 / session id 0..1 / outstanding request id 0..1 arbitrary UTF-16 units, '
+         'bytes done and announced size 0..2^62, announced hash 0..2 arbitrary bytes (0 = none), block counter over the whole range of its type (>= 0), block size 0..2^31-1')
+B_REQ = 'request: from 0..2 / sid 0..1 / id 0..1 arbitrary UTF-16 units'
 def I(name, bound, **kw):
     d = dict(name=name, entry='h_' + name, unwind=6, timeout_s=300, mem_gb=3, bound=bound); d.update(kw); return d
+def S(name, type_, blen, bound, entry='h_sender_step', **kw):
+    # structural case of the sender step: IQ type (0 error, 1 get, 2 set, 3 result) and length of the next block of the device
+    return I(name, bound + '; ' + B_JOB + '; response: from 0..2 / id 0..1 arbitrary units; device open or closed', entry=entry, cdefs={'VP_CASE': type_ | (blen << 2)}, mem_gb=4, **kw)
 SPEC = dict(
     property='C19',
     groups=[
         dict(name='ibb', harness='h.cpp', tus=TUS, models=MODELS,
              instances=[
-                 I('data_step', 'one job'), I('data_step_kf', ''), I('close_step', ''), I('terminated', ''), I('open_step', ''), I('sender_result2', '', entry='h_sender_step', cdefs={'VP_CASE': 3 | (2 << 2)}), I('sender_result0', '', entry='h_sender_step', cdefs={'VP_CASE': 3 | (0 << 2)}), I('sender_error', '', entry='h_sender_step', cdefs={'VP_CASE': 0 | (1 << 2)}), I('sender_dispatch', '', cdefs={'VP_CASE': 3 | (1 << 2)}), I('lookup', ''), I('transfer2', '', object_bits=12, unwind=6), I('send2', '', object_bits=12, unwind=6),
+                 # receiver: match job by sender and session id, require the expected sequence number, write, acknowledge
+                 I('data_step', 'one ibbDataIqReceived step; ' + B_JOB + '; ' + B_REQ + ', seq 0..65535, payload 0..2 arbitrary bytes; the local device accepts or refuses the write'),
+                 I('data_step_kf', 'as data_step with block counter >= 65536 (demonstrates the known finding)', known_finding=KF_WRAP),
+                 I('open_step', 'one ibbOpenIqReceived step; ' + B_JOB + '; ' + B_REQ + ', block-size over all long values; manager block-size limit 0..2^31-1'),
+                 # final size and hash verification
+                 I('close_step', 'one ibbCloseIqReceived step (+ checkData, terminate); ' + B_JOB + '; ' + B_REQ + '; digest of the running hash: 0..2 arbitrary bytes'),
+                 I('terminated', '_q_terminated on any job state with any error value 0..4'),
+                 I('lookup', 'getIncomingJobBySid / getOutgoingJobByRequestId on a list of 0..2 jobs (each: ' + B_JOB + '), query JID 0..2 / key 0..1 arbitrary units'),
+                 I('transfer2', 'history: fresh incoming job (real constructor state) in StartState; open, 2 data blocks of 1 arbitrary byte with arbitrary 16-bit sequence numbers, close; announced size 0..255, hash 0..2 bytes, digest 0..2 bytes',
+                   object_bits=12, mem_gb=4),
+                 # sender: next block on each acknowledgement, close at end of data
+                 S('sender_result2', 3, 2, 'one ibbResponseReceived step, IQ type result, the device yields a 2-byte block'),
+                 S('sender_result0', 3, 0, 'one ibbResponseReceived step, IQ type result, the device is at end of data'),
+                 S('sender_error', 0, 1, 'one ibbResponseReceived step, IQ type error'),
+                 S('sender_dispatch', 3, 1, 'one _q_iqReceived step (dispatch to ibbResponseReceived) for an in-band job, non-empty from, IQ type result, the device yields a 1-byte block', entry='h_sender_dispatch'),
+                 S('sender_result1', 3, 1, 'one ibbResponseReceived step, IQ type result, 1-byte block', tiers=('thorough',)),
+                 S('sender_get', 1, 1, 'one ibbResponseReceived step, IQ type get', tiers=('thorough',)),
+                 S('sender_set', 2, 1, 'one ibbResponseReceived step, IQ type set', tiers=('thorough',)),
+                 S('sender_dispatch_error', 0, 1, 'one _q_iqReceived step for an in-band job, IQ type error', entry='h_sender_dispatch', tiers=('thorough',)),
+                 S('sender_dispatch_eof', 3, 0, 'one _q_iqReceived step for an in-band job, IQ type result, end of data', entry='h_sender_dispatch', tiers=('thorough',)),
+                 I('send2', 'history: fresh outgoing in-band job (real constructor state) with the open request outstanding; 3 acknowledgements; the device yields 2 blocks of 1 arbitrary byte, then end of data',
+                   object_bits=12, mem_gb=5),
              ]),
     ],
-    bounds=[], assumptions=[], outside=[],
+    bounds=[
+        'single inductive steps from an arbitrary job pre-state (one job in the manager; the lookup instance: 0..2 jobs): ' + B_JOB,
+        B_REQ + '; data: seq over all 16-bit values, payload 0..2 arbitrary bytes; open: block-size over all long values',
+        'the block counter ranges over every value of its type (all non-negative int before the repair of D13, all quint16 after): covers 0, block boundaries and more than 65536 blocks',
+        'sender step: one cbmc instance per (IQ type, length of the next block 0..2); contents symbolic',
+        'two histories from the state the real constructors leave: receiver open + 2 blocks (any sequence numbers/contents = any drop/duplicate/swap/alteration) + close; sender 3 acknowledgements with a 2-block source',
+        'digests are 0..2 arbitrary bytes (nothing about the hash function is assumed)',
+    ],
+    assumptions=[
+        'job and manager objects are typed raw storage; only their private data (built by the REAL QXmppTransferJobPrivate / QXmppTransferManagerPrivate constructors) is live; QObject plumbing (connect, parent, event loop) is not exercised',
+        'signals (moc output in the real build) are a ghost log; QMetaObject::invokeMethod(job, "_q_terminated", Qt::QueuedConnection) is recorded, _q_terminated itself is checked separately',
+        'QXmppClient::sendPacket serialises the stanza with its real toXml into the writer tree model (Qt XML escaping trusted) and may return either value',
+        'QIODevice::write(data) of the user device consumes all bytes or fails with -1 (no partial writes); QIODevice::read(max) returns at most max bytes; the device is owned by the caller (accept(QIODevice*) / sendFile(jid, device, info): deviceIsOwn == false)',
+        'QCryptographicHash object = recording oracle: addData appends to a ghost log, result() returns arbitrary bytes chosen per run; "running hash == announced hash" is the byte comparison of that digest with the announced value, and the steps prove that exactly the written bytes are hashed',
+        'an announced size of 0 means "no size announced" (QXmppTransferFileInfo::toXml omits it), an empty hash means "no hash announced": then the respective check is void by design of XEP-0096',
+        'numbers in attributes are abstract numeric strings, base64 is an abstract injective tagging (string model); stanza ids generated by QXmppStanza are placeholders (the outstanding request id is compared with the id attribute actually sent)',
+        'pre-state invariant: the block counter is >= 0 (it counts blocks from 0)',
+        'sender dispatch (_q_iqReceived): the response carries a non-empty from and the job uses the in-band method (responses without from / jobs of other methods are routed to stream-initiation and SOCKS5 handling)',
+    ],
+    outside=[
+        'SOCKS5 bytestreams (QXmppSocks.cpp, QXmppByteStreamIq negotiation, proxy activation, _q_receiveData/_q_sendData over TCP): real sockets and the SOCKS protocol are not encoded',
+        'stream initiation (XEP-0095/0096 offer, method selection, accept/refuse by the user, _q_jobStateChanged) and job scheduling / deletion (_q_jobDestroyed)',
+        'parsing of the IBB stanzas from XML (QXmppIbb*Iq::parse, handleStanza dispatch): requests are built through their setters; the codecs are C01-type round trips',
+        'file I/O: QFile opening, sendFile(path) hashing the file (Md5 over the whole file), devices that write partially',
+        'collision resistance of the hash (content alterations that keep size are detected only through the announced hash, by contract of the hash function)',
+        'an <open/> for a job that is not waiting for it: ibbOpenIqReceived does not look at the job state, so an open sent after the transfer finished puts a finished job back into TransferState (observed, not asserted; '
+        'in the offer state the connected _q_jobStateChanged slot aborts the job, after completion nothing does)',
+        'the reply sent for a block the local device refused to write (the code acknowledges it; the loss is reported at close through the size/hash check when they were announced)',
+        'histories longer than 2 blocks (carried by the inductive steps), more than 2 jobs, strings longer than the bounds',
+    ],
 )
